@@ -125,6 +125,16 @@ impl<T: Model + Ord> Model for BTreeSet<T> {
     }
 }
 
+impl Model for () {
+    fn ty() -> Ty {
+        Ty::Unit
+    }
+    fn to_val(&self) -> Val {
+        Val::Unit
+    }
+    fn from_val(_: &Val) -> Self {}
+}
+
 impl Model for String {
     fn ty() -> Ty {
         Ty::Str
@@ -205,6 +215,8 @@ type_table! {
     21 => (u8, u8, u8, u8, u8, u8), 22 => Option<Vec<u8>>, 23 => (usize,), 24 => (u8, u16, u32, u64),
     25 => (u8, u16, u32, u64, u128), 26 => Vec<usize>, 27 => BTreeMap<u16, Vec<u8>>, 28 => [Option<u8>; 2],
     29 => Vec<u64>, 30 => Vec<u128>, 31 => BTreeSet<u64>, 32 => Vec<(u8, u16)>,
+    // element types with an empty encoding
+    33 => (), 34 => Vec<()>, 35 => [u8; 0], 36 => Vec<[u8; 0]>, 37 => (Vec<()>, u64), 38 => BTreeSet<()>, 39 => BTreeMap<(), ()>, 40 => Option<()>, 41 => [(); 3],
 }
 
 // VALUE ENUMERATION (tiny alphabets, boundary values first)
@@ -607,6 +619,11 @@ pub fn run(args: &Args) {
     // dedup identical (type, bytes) cases
     cases.sort_by(|a, b| (a.ty, &a.bytes).cmp(&(b.ty, &b.bytes)));
     cases.dedup_by(|a, b| a.ty == b.ty && a.bytes == b.bytes);
+    // encodings that announce more than 2^16 elements of an empty-encoding type are valid and take
+    // time proportional to the count to decode: outside the bound, not executed
+    let before = cases.len();
+    cases.retain(|c| codec::decode(&ty_of(c.ty), &c.bytes) != Err(RefErr::Unbounded));
+    let skipped_unbounded = before - cases.len();
 
     #[derive(Default)]
     struct Acc {
@@ -614,6 +631,7 @@ pub fn run(args: &Args) {
         decoded_ok: u64,
         rejected: u64,
         unconfirmed: u64,
+        beyond_cap: u64,
     }
     let accs: Vec<Acc> = pool::run(
         &cfg,
@@ -630,7 +648,11 @@ pub fn run(args: &Args) {
                 _ => {},
             }
             if let Some(v) = judge(&cases[i], &outcome) {
-                if pool::confirmed(&cfg, _payload, &outcome) {
+                // every reported violation is repeated in a fresh worker; once a worker thread has
+                // 25 confirmed ones of a class, further ones of that class are only counted
+                if acc.viol.iter().filter(|(_, w)| w.class == v.class).count() >= 25 {
+                    acc.beyond_cap += 1;
+                } else if pool::confirmed(&cfg, _payload, &outcome) {
                     acc.viol.push((i, v));
                 } else {
                     acc.unconfirmed += 1;
@@ -639,9 +661,10 @@ pub fn run(args: &Args) {
         },
     );
     let mut viol: Vec<(usize, Violation)> = vec![];
-    let (mut ok, mut rej, mut unconfirmed) = (0, 0, 0);
+    let (mut ok, mut rej, mut unconfirmed, mut beyond_cap) = (0, 0, 0, 0u64);
     for a in accs {
         unconfirmed += a.unconfirmed;
+        beyond_cap += a.beyond_cap;
         viol.extend(a.viol);
         ok += a.decoded_ok;
         rej += a.rejected;
@@ -653,7 +676,9 @@ pub fn run(args: &Args) {
         cases.len() as u64,
         cases.len() as u64,
         json!({"decoded_to_a_value": ok, "rejected_with_error": rej, "worker_address_space_kib": cfg.mem_kib, "watchdog_s": cfg.timeout.as_secs(),
-            "outcomes_not_repeated_by_a_fresh_worker_and_therefore_discarded": unconfirmed}),
+            "outcomes_not_repeated_by_a_fresh_worker_and_therefore_discarded": unconfirmed,
+            "valid_encodings_of_more_than_2^16_empty_elements_not_executed": skipped_unbounded,
+            "further_violating_cases_of_an_already_confirmed_class_counted_only": beyond_cap}),
     );
     for c in cases.iter().filter(|c| c.origin.contains("overlong") || c.origin.contains("count=")).take(3) {
         report.sample(json!({"type": type_name(c.ty), "bytes": mck::hex(&c.bytes), "origin": c.origin}));
